@@ -175,6 +175,7 @@ func c02Triggers(d *Defs, c c02Combo) []string {
 			set["name.defCase"] = true
 		}
 	}
+	c02NameTriggers(d, set)
 	if hasDictOfNonScalar && !hasArrayOfNonScalar {
 		set["dict.nonScalar.noArray"] = true
 	}
